@@ -10,6 +10,7 @@ REALS = ("ValueType is modelled by exact reals (type R): every 'equals its defin
          "the size and growth of IEEE rounding error is NOT decided by this check")
 
 UNITS = {
+    "ind_channels": dict(tpl="ind_channels.rs.tpl", doc="indicators::{DonchianChannel, PriceChannelStrategy, BollingerBands}"),
     "ind_macd": dict(tpl="ind_macd.rs.tpl", doc="indicators::MACD (generic in the moving-average constructor)"),
     "indicator_base": dict(tpl="indicator_base.rs.tpl", doc="Action (integer part), CrossAbove/CrossUnder/Cross over reals"),
     "indicator_set": dict(generator="gen_set_unit.py", doc="IndicatorConfig::set of all 36 shipped indicators; contracts generated from the public field lists"),
